@@ -103,6 +103,10 @@ def gen_spec(rng):
                     ev['filter'] = ['ifoutput', '_not_' + rng.choice(names), True]
                 elif r < 0.45:
                     ev['filter'] = ['ifnotinit', f"k{rng.randrange(n_sink)}", rng.random() < 0.6]
+                elif r < 0.7:
+                    # DataEdit.add_output: few distinct sources, so the same name is referenced
+                    # by several filters of the circuit
+                    ev['filter'] = ['add_output', rng.choice(names[:2]), rng.random() < 0.8]
                 b.setdefault('events', []).append(ev)
     if rng.random() < 0.3:
         blocks[0].setdefault('events', []).append({'dest': '_ctrl', 'byname': True, 'filter': None,
@@ -143,7 +147,10 @@ def build(spec, evreg):
             if e['filter']:
                 kind, ctrl, byname_ctrl = e['filter']
                 ctrl_ref = ctrl if (byname_ctrl or ctrl not in created) else created[ctrl]
-                flt = edzed.IfOutput(ctrl_ref) if kind == 'ifoutput' else NotIfInit(ctrl_ref)
+                if kind == 'add_output':
+                    flt = edzed.DataEdit.add_output('src_output', ctrl_ref)
+                else:
+                    flt = edzed.IfOutput(ctrl_ref) if kind == 'ifoutput' else NotIfInit(ctrl_ref)
             dest = e['dest'] if (e['byname'] or e['dest'] not in created) else created[e['dest']]
             if e.get('etype') == 'abort-never':
                 ev = edzed.Event(dest, 'abort', efilter=lambda d: False)
@@ -296,7 +303,24 @@ def check_structure(spec, circuit, created, evreg, ctx, where):
                 "finalisation")
         if dest is not blocks.get(e['dest']):
             raise core.Violation('event-dest-wrong', f"{where}: dest {dest!r} for {e['dest']!r}")
-        if flt is not None:
+        if flt is not None and e['filter'][0] == 'add_output':
+            # no attribute to inspect: the filter is run, it must read the output of the block
+            ctx.count('add_output_sources_checked')
+            src = blocks.get(e['filter'][1])
+            try:
+                res = flt({'vf': 1})
+            except Exception as err:
+                raise core.Violation(
+                    'filter-source-unresolved',
+                    f"{where}: DataEdit.add_output(..., {e['filter'][1]!r}) raised {err!r} when "
+                    "called after the finalisation")
+            if not isinstance(res, dict) or res.get('src_output') is not src.output \
+                    and res.get('src_output') != src.output:
+                raise core.Violation(
+                    'filter-source-wrong',
+                    f"{where}: DataEdit.add_output(..., {e['filter'][1]!r}) produced {res!r}, "
+                    f"the block's output is {src.output!r}")
+        elif flt is not None:
             ctx.count('filter_ctrl_checked')
             if flt._ctrl_blk is not blocks.get(e['filter'][1]):
                 raise core.Violation(
@@ -308,10 +332,23 @@ def check_structure(spec, circuit, created, evreg, ctx, where):
             ('connect', lambda: next(b for b in blocks.values()
                                      if isinstance(b, edzed.CBlock)).connect(1)),
             ('storage', lambda: circuit.set_persistent_data({})),
-            ('new cblock', lambda: edzed.Not('late_not'))):
+            ('new cblock', lambda: edzed.Not('late_not')),
+            ('auto-named block', lambda: edzed.Input(None, initdef=0)),
+            ('auto-named cblock', lambda: edzed.Not(None)),
+            ('event with repeat (implicit Repeat block)',
+             lambda: edzed.Event(next(b for b in blocks.values()
+                                       if isinstance(b, edzed.SBlock)), 'put', repeat=5))):
         ctx.count('frozen_checks')
+        nblocks = len(circuit._blocks)
         try:
-            fn()
+            try:
+                fn()
+            finally:
+                if len(circuit._blocks) != nblocks:
+                    raise core.Violation(
+                        'modification-accepted-after-finalize',
+                        f"{where}: {what}: the circuit has {len(circuit._blocks)} blocks, "
+                        f"{nblocks} before")
         except edzed.EdzedInvalidState:
             pass
         except StopIteration:
